@@ -228,61 +228,67 @@ def rule_R(ctx):
         raise shape_error('optimalPartition: cannot see how D receives the costs', f.loc())
 
 
-def _expand(spl, i, j):
-    k = spl.get((i, j), -1)
-    if k < 0:
-        return [i]
-    return _expand(spl, i, k) + _expand(spl, k, j)
-
-
 def rule_B(ctx):
-    """C12.B split table expansion on every consistent split table for n <= 5"""
+    """C12.B expansion of the split table: leaf test on its finite case domain, recursive shape"""
     fb = ctx.prog.func(SEG + '.backtracking')
     fw = ctx.prog.func(SEG + '.backward')
-    bt_body = body_nodocstring(fb)
-    bw_body = body_nodocstring(fw)
-    bp = fb.params
-    depth = [0]
-
-    def bt(B, i, j):
-        depth[0] += 1
-        if depth[0] > 200:
-            raise orders.Unsupported('runaway recursion')
-        env = {bp[0]: B, bp[1]: i, bp[2]: j, fb.name: bt}
-        kind, val = orders.run_block(bt_body, env)
-        depth[0] -= 1
-        if kind != 'return':
-            raise orders.Unsupported('backtracking falls off its end')
-        return val
+    B, pi, pj = fb.params[:3]
+    w = Walker(fb, loop_mode='skip')
+    outs = [o for o in w.run(body_nodocstring(fb), State()) if o.kind == 'return']
+    leaves = [o for o in outs if isinstance(o.value, list)]
+    recs = [o for o in outs if not isinstance(o.value, list)]
+    if not leaves or not recs:
+        raise shape_error('backtracking: expected a leaf return and a recursive return', fb.loc())
+    for o in leaves:
+        ctx.check(len(o.value) == 1 and isinstance(o.value[0], Rat) and o.value[0].single_atom() == pi, 'C12.B', fb,
+                  'a leaf interval contributes its left end [i]', witness={'returned': repr(o.value)}, node=o.node, key='leaf-val')
+    # leaf test on the case domain (split recorded? x gap): comparisons only
+    iff = [s_ for s_ in body_nodocstring(fb) if isinstance(s_, ast.If)]
+    if len(iff) != 1 or not any(isinstance(n_, ast.Return) and isinstance(n_.value, ast.List) for n_ in iff[0].body):
+        raise shape_error('backtracking: leaf test not found', fb.loc())
     bad = []
-    total = 0
-    for n in (2, 3, 4, 5):
-        ivs = [(i, j) for i in range(n) for j in range(i + 2, n)]
-        choices = [[-1] + list(range(i + 1, j)) for (i, j) in ivs]
-        for combo in itertools.product(*choices):
-            spl = dict(zip(ivs, combo))
-            B = Table('B', {})
-            for i in range(n):
-                for j in range(n):
-                    B[(i, j)] = float(spl.get((i, j), -1))
-            B.attrs = {'shape': (n, n)}
-            env = {fw.params[0]: B, fb.name: bt}
-            depth[0] = 0
+    for gap in (1, 2, 3, 4):
+        for split in [-1] + list(range(1, gap)):
+            T = Table(B, {(0, gap): float(split)})
             try:
-                kind, got = orders.run_block(bw_body, env)
+                leaf = bool(orders.ev(iff[0].test, {B: T, pi: 0, pj: gap}))
             except orders.Unsupported as e:
-                raise shape_error('backward/backtracking not interpretable: %s' % e, fb.loc())
-            except RecursionError:
-                raise shape_error('backtracking recursion does not terminate on a consistent table', fb.loc())
-            want = _expand(spl, 0, n - 1) + [n - 1]
-            total += 1
-            if got != want and len(bad) < 4:
-                bad.append({'n': n, 'recorded splits (interval -> split)': {str(k): v for k, v in spl.items() if v >= 0},
-                            'returned': got, 'expected': want})
+                raise shape_error('leaf test not interpretable: %s' % e, fb.loc(iff[0]))
+            want = split < 0
+            if leaf != want:
+                bad.append({'interval': [0, gap], 'recorded split': split, 'treated as leaf': leaf})
     ctx.check(not bad, 'C12.B', fb,
-              'backward(M) expands every recorded split point: result == recursive expansion of the split table '
-              '(all %d consistent tables, n <= 5), strictly increasing from first to last' % total,
-              witness={'counter-examples': bad}, node=fb.node, key='expand')
+              'an interval is a leaf exactly when no split point is recorded for it (every recorded split is expanded)',
+              witness={'wrong cases': bad[:5]}, node=iff[0], key='leaf-test')
+    for o in recs:
+        rv = o.node.value
+        okr = isinstance(rv, ast.BinOp) and isinstance(rv.op, ast.Add) and isinstance(rv.left, ast.Call) and \
+            isinstance(rv.right, ast.Call) and getattr(rv.left.func, 'id', None) == fb.name and \
+            getattr(rv.right.func, 'id', None) == fb.name
+        if not okr:
+            raise shape_error('backtracking: recursive return is not bt(...) + bt(...)', fb.loc(o.node))
+        la = [w.ex(a, o.state) for a in rv.left.args]
+        ra = [w.ex(a, o.state) for a in rv.right.args]
+        mid = 'int(%s[%s, %s])' % (B, pi, pj)
+        def nm(v):
+            return v.single_atom() if isinstance(v, Rat) else repr(v)
+        ok = [nm(x) for x in la] == [B, pi, mid] and [nm(x) for x in ra] == [B, mid, pj]
+        ctx.check(ok, 'C12.B', fb, 'otherwise the result is expand(i, m) followed by expand(m, j), m the recorded split of (i, j)',
+                  witness={'left call': [nm(x) for x in la], 'right call': [nm(x) for x in ra]}, node=o.node, key='rec')
+    wb = Walker(fw, loop_mode='skip')
+    bo = [o for o in wb.run(body_nodocstring(fw), State()) if o.kind == 'return']
+    rv = bo[0].node.value if len(bo) == 1 else None
+    okb = isinstance(rv, ast.BinOp) and isinstance(rv.op, ast.Add) and isinstance(rv.left, ast.Call) and \
+        getattr(rv.left.func, 'id', None) == fb.name and isinstance(rv.right, ast.List) and len(rv.right.elts) == 1
+    if okb:
+        Bn = fw.params[0]
+        la = [wb.ex(a, bo[0].state) for a in rv.left.args]
+        last = wb.ex(rv.right.elts[0], bo[0].state)
+        n1 = Rat.atom('%s.shape[0]' % Bn) - Rat.const(1)
+        okb = isinstance(la[0], Rat) and la[0].single_atom() == Bn and wb.rel.is_zero(la[1]) and \
+            wb.rel.is_zero(la[2] - n1) and wb.rel.is_zero(last - n1)
+    ctx.check(okb, 'C12.B', fw, 'backward(M) = expand(0, n-1) + [n-1]: from the first to the last candidate',
+              witness={'return': unparse(rv) if rv is not None else None}, node=fw.node, key='backward')
     f = ctx.prog.func(SEG + '.optimalPartition')
     rets = [s for s in ast.walk(f.node) if isinstance(s, ast.Return) and s.value is not None]
     ldiag, li, lk = _dp_loops(f)
